@@ -58,6 +58,8 @@ pub fn parse<'a, T: Iterator<Item = &'a Token>>(
     text: &str,
     cur: &mut Peekable<T>,
 ) -> Result<Cell, Error> {
+    #[cfg(marwood_verif)]
+    let _depth_guard = crate::verif_depth::Guard::enter(crate::verif_depth::PARSE);
     let token = match cur.next() {
         Some(token) => token,
         None => return Err(Error::Incomplete),
@@ -103,6 +105,8 @@ fn parse_list<'a, T: Iterator<Item = &'a Token>>(
     cur: &mut Peekable<T>,
     start_token: &Token,
 ) -> Result<Cell, Error> {
+    #[cfg(marwood_verif)]
+    let _depth_guard = crate::verif_depth::Guard::enter(crate::verif_depth::PARSE);
     let mut list = vec![];
     loop {
         match cur.peek().ok_or(Error::Incomplete)?.token_type {
@@ -181,6 +185,8 @@ fn parse_vector<'a, T: Iterator<Item = &'a Token>>(
     text: &str,
     cur: &mut Peekable<T>,
 ) -> Result<Cell, Error> {
+    #[cfg(marwood_verif)]
+    let _depth_guard = crate::verif_depth::Guard::enter(crate::verif_depth::PARSE);
     let mut vector = vec![];
     loop {
         match cur.peek().ok_or(Error::Incomplete)?.token_type {
